@@ -264,7 +264,11 @@ Definition wl_has_member (H : bytes -> bytes) (s : wl_state) (member : str) (p :
 Definition wl_query_root (s : wl_state) : str := wl_root s.
 
 (* ====================== tiered-whitelist-merkletree ====================== *)
+(* st_id: the identity the stage was instantiated with (its position then / its name).  It
+   is what a list of entries and a root were issued for; MERKLE_ROOTS pairs roots with
+   stages by list index only, so the property needs the index of an identity never to move. *)
 Record stage := mkStage {
+  st_id : N;
   st_start : N;
   st_end : N;
   st_denom : N;           (* mint_price.denom *)
@@ -348,7 +352,9 @@ Definition tw_update_stage_config (sender : addr) (id : N) (st en dn lm : option
   match (if id <? N.of_nat (length (tw_stages s)) then nth_error (tw_stages s) (N.to_nat id) else None) with
   | None => Err
   | Some old =>
-      let upd := mkStage (dflt st (st_start old)) (dflt en (st_end old)) (dflt dn (st_denom old))
+      (* config.stages[stage_id] = updated_stage: same index, nothing is sorted or moved
+         (the name is kept unless a new one is sent; the harness re-sends the same name) *)
+      let upd := mkStage (st_id old) (dflt st (st_start old)) (dflt en (st_end old)) (dflt dn (st_denom old))
                          (dflt lm (st_limit old)) in
       let stages' := replace_nth (N.to_nat id) upd (tw_stages s) in
       do _ <- validate_update stages';
@@ -466,6 +472,9 @@ Fixpoint tw_run_steps (h : list tw_step) (s : tw_state) : tw_state :=
   | [] => s
   | st :: r => match tw_apply st s with Ok s' => tw_run_steps r s' | Err => tw_run_steps r s end
   end.
+
+(* which identity is served by which root: position by position *)
+Definition tw_pairing (s : tw_state) : list (N * str) := combine (map st_id (tw_stages s)) (tw_roots s).
 
 Definition stage_active (now : N) (s : stage) : bool := (st_start s <=? now) && (now <=? st_end s).
 
